@@ -10,6 +10,9 @@ import (
 // WriteEvidence writes /verif/evidence/<id>.json for the run.
 func WriteEvidence(a *Aggregate, wall float64, violations int) error {
 	chk := a.Check
+	if len(a.Samples) == 0 {
+		a.Samples = a.fallback
+	}
 	cov := map[string]interface{}{
 		"evaluations":         a.Evaluations,
 		"distinct_nontrivial": len(a.Keys),
@@ -64,6 +67,10 @@ func WriteEvidence(a *Aggregate, wall float64, violations int) error {
 		return err
 	}
 	dir := filepath.Join(Root(), "evidence")
+	if d := os.Getenv("VERIF_EVIDENCE_DIR"); d != "" {
+		// development runs against another checkout must not overwrite the evidence of /repo
+		dir = d
+	}
 	if err := os.MkdirAll(dir, 0o755); err != nil {
 		return err
 	}
